@@ -28,6 +28,9 @@ WorksR == [1..2 -> SeqsUpTo({Tagged, Ungl, TestTg, R("startTestRun")}, 2)]
 \* faults, followed by another tagged test of the same thread
 WorksC == { << <<TestTg, T("addSuccess", NoTags, Add("y"))>>, <<Plain>> >> }
 
+\* shouldStop polled by one thread while stop() is forwarded by another
+WorksS2 == [1..2 -> SeqsUpTo({R("stop"), R("shouldStop"), Plain}, 2)]
+
 \* explicit times: back-to-back tests of a thread whose start time equals the previous end time (and equal start /
 \* end), interleaved with another thread's blocks
 WorksT == [1..2 -> SeqsUpTo({Tm(5, 7), Tm(7, 7), Tm(7, 5)}, 2)]
